@@ -20,7 +20,7 @@ def nontrivial(c, tr):
 
 def run(chk, replay=None):
     return connlib.run_property(
-        chk, "C01", connlib.oracle_c01, ["stream", "stream", "mixed", "marks"], 1500, 60000, replay=replay,
+        chk, "C01", connlib.oracle_c01, ["stream", "stream", "mixed", "marks"], 1500, 24000, replay=replay,
         nontrivial=nontrivial,
         rule="corpus + random op sequences (loop/foreign sends cut into check+enqueue, scripted kernel acceptance incl. short writes/EAGAIN/EINTR, "
              "reads, pause/resume, closes); non-trivial = entered the buffered write path (backlog > 0); distinct by (op-kind sequence, features, final wire length)")
